@@ -5,6 +5,7 @@ package http
 import (
 	"context"
 	nethttp "net/http"
+	"strings"
 
 	rt "github.com/transparency-dev/witness/internal/verifrt"
 	"github.com/transparency-dev/witness/internal/witness"
@@ -30,6 +31,10 @@ func verifStatus(rec *rt.RecWriter) int {
 func VerifReadAPI() {
 	wd := witness.VerifNewWorld(rt.Param("logs", 2), rt.Param("signers", 1))
 	s := NewServer(wd.W)
+	// the witness files logs under IDs produced by formats/log.ID: lower-case hex digests
+	for _, x := range wd.IDs {
+		rt.Assume(strings.ToLower(x) == x)
+	}
 	id := rt.Str("reqid")
 	hit := -1
 	for i, x := range wd.IDs {
